@@ -71,13 +71,19 @@ impl PidFileLocking {
 
     /// Removes the lock file if it is not locked or the process that locked it is no longer active
     pub fn release(&self) -> io::Result<()> {
+        #[cfg(fuellabs_sway_verif)]
+        sway_types::verif_hooks::point("release.begin", &|| String::new());
         if self.is_locked() {
             Err(io::Error::other(format!(
                 "Cannot remove a dirty lock file, it is locked by another process (PID: {:#?})",
                 self.get_locker_pid()
             )))
         } else {
+            #[cfg(fuellabs_sway_verif)]
+            sway_types::verif_hooks::point("release.before_remove", &|| String::new());
             self.remove_file()?;
+            #[cfg(fuellabs_sway_verif)]
+            sway_types::verif_hooks::point("release.removed", &|| String::new());
             Ok(())
         }
     }
@@ -97,15 +103,25 @@ impl PidFileLocking {
     /// Returns the PID of the owner of the current lock. If the PID is not longer active the lock
     /// file will be removed
     pub fn get_locker_pid(&self) -> Option<usize> {
+        #[cfg(fuellabs_sway_verif)]
+        sway_types::verif_hooks::point("pid.before_open", &|| String::new());
         let fs = File::open(&self.0);
         if let Ok(mut file) = fs {
+            #[cfg(fuellabs_sway_verif)]
+            sway_types::verif_hooks::point("pid.opened", &|| String::new());
             let mut contents = String::new();
             file.read_to_string(&mut contents).ok();
             drop(file);
+            #[cfg(fuellabs_sway_verif)]
+            sway_types::verif_hooks::point("pid.read", &|| contents.clone());
             if let Ok(pid) = contents.trim().parse::<usize>() {
                 return if Self::is_pid_active(pid) {
+                    #[cfg(fuellabs_sway_verif)]
+                    sway_types::verif_hooks::point("pid.active", &|| String::new());
                     Some(pid)
                 } else {
+                    #[cfg(fuellabs_sway_verif)]
+                    sway_types::verif_hooks::point("pid.dead_before_remove", &|| String::new());
                     let _ = self.remove_file();
                     None
                 };
@@ -124,16 +140,28 @@ impl PidFileLocking {
 
     /// Locks the given filepath if it is not already locked
     pub fn lock(&self) -> io::Result<()> {
+        #[cfg(fuellabs_sway_verif)]
+        sway_types::verif_hooks::point("lock.begin", &|| String::new());
         self.release()?;
+        #[cfg(fuellabs_sway_verif)]
+        sway_types::verif_hooks::point("lock.released", &|| String::new());
         if let Some(dir) = self.0.parent() {
             // Ensure the directory exists
             create_dir_all(dir)?;
         }
+        #[cfg(fuellabs_sway_verif)]
+        sway_types::verif_hooks::point("lock.before_create", &|| String::new());
 
         let mut fs = File::create(&self.0)?;
+        #[cfg(fuellabs_sway_verif)]
+        sway_types::verif_hooks::point("lock.created", &|| String::new());
         fs.write_all(std::process::id().to_string().as_bytes())?;
+        #[cfg(fuellabs_sway_verif)]
+        sway_types::verif_hooks::point("lock.written", &|| String::new());
         fs.sync_all()?;
         fs.flush()?;
+        #[cfg(fuellabs_sway_verif)]
+        sway_types::verif_hooks::point("lock.done", &|| String::new());
         Ok(())
     }
 
@@ -141,6 +169,8 @@ impl PidFileLocking {
     /// Returns a vector of paths that were cleaned up
     pub fn cleanup_stale_files() -> io::Result<Vec<PathBuf>> {
         let lock_dir = user_forc_directory().join(".lsp-locks");
+        #[cfg(fuellabs_sway_verif)]
+        sway_types::verif_hooks::point("cleanup.begin", &|| String::new());
         let entries = read_dir(&lock_dir)?;
         let mut cleaned_paths = Vec::new();
 
@@ -149,15 +179,23 @@ impl PidFileLocking {
             let path = entry.path();
             if let Some(ext) = path.extension().and_then(|ext| ext.to_str()) {
                 if ext == "lock" {
+                    #[cfg(fuellabs_sway_verif)]
+                    sway_types::verif_hooks::point("cleanup.before_open", &|| String::new());
                     if let Ok(mut file) = File::open(&path) {
                         let mut contents = String::new();
                         if file.read_to_string(&mut contents).is_ok() {
+                            #[cfg(fuellabs_sway_verif)]
+                            sway_types::verif_hooks::point("cleanup.read", &|| contents.clone());
                             if let Ok(pid) = contents.trim().parse::<usize>() {
                                 if !Self::is_pid_active(pid) {
+                                    #[cfg(fuellabs_sway_verif)]
+                                    sway_types::verif_hooks::point("cleanup.dead_before_remove", &|| String::new());
                                     remove_file(&path)?;
                                     cleaned_paths.push(path);
                                 }
                             } else {
+                                #[cfg(fuellabs_sway_verif)]
+                                sway_types::verif_hooks::point("cleanup.unparsable_before_remove", &|| String::new());
                                 remove_file(&path)?;
                                 cleaned_paths.push(path);
                             }
